@@ -55,13 +55,17 @@ pub fn run_slice(sc: &Value, id: usize, out: Out) {
     let r = guarded(|| {
         let mut s = AffTree::<2>::from_slice(&pt);
         s.compose::<false, false>(&tree);
+        if sc.get("prune").and_then(|v| v.as_bool()).unwrap_or(false) {
+            // slicing makes many paths infeasible; pruning them leaves holes in the arena before remove_axes
+            s.infeasible_elimination();
+        }
         s.remove_axes(&Array1::from_iter(mask.iter().cloned())).expect("remove_axes");
         s
     });
     match r {
-        Ok(s) => out(json!({"fam": "slice", "sc": id, "first": true, "q": q as i64, "tree": tree_json(&tree, q), "mask": sc["mask"], "ref": sc["ref"], "res": "ok",
-                            "post": tree_json(&s, q)})),
-        Err(_) => out(json!({"fam": "slice", "sc": id, "first": true, "q": q as i64, "tree": tree_json(&tree, q), "mask": sc["mask"], "ref": sc["ref"], "res": "panic", "post": none()})),
+        Ok(s) => out(json!({"fam": "slice", "sc": id, "first": true, "q": q as i64, "tree": tree_json(&tree, q), "mask": sc["mask"], "ref": sc["ref"], "res": "ok", "prune": sc.get("prune").cloned().unwrap_or(json!(false)),
+                            "post": tree_json(&s, q), "grid": eval_grid(&s, q, 2, 4)})),
+        Err(_) => out(json!({"fam": "slice", "sc": id, "first": true, "q": q as i64, "tree": tree_json(&tree, q), "mask": sc["mask"], "ref": sc["ref"], "res": "panic", "prune": sc.get("prune").cloned().unwrap_or(json!(false)), "post": none(), "grid": none()})),
     }
 }
 
